@@ -330,7 +330,8 @@ def run(chk: common.Check):
         rule=("obligations = theorems of coq/props/C14.v (all group lists with arbitrary payload, all key lists; all chain texts / decimal numerals / "
               "insertion codes for the syntax). Tie: parse_res_list on valid + malformed strings; flags of every group of every conformation "
               "predicted by the model from the no-option run. Search: listed<->titratable/reported, all-listed == no option (records + .pka text), "
-              "absent/repeated/permuted entries, insertion-code twins, multi-conformation inputs, environment of listed groups. distinct = (run, list kind)"),
+              "absent/repeated/permuted entries, insertion-code twins, multi-conformation inputs, environment of listed groups. distinct = (run, list kind)"
+              " Added in rounds 5-6: several structures in one invocation with one list, single-residue lists for groups with partners of the iterative pair types, the empty list through the API."),
         assumptions=["strings are 8-bit in the model (non-Latin-1 inputs are skipped in the syntax correspondence and counted)",
                      "'still acts as hydrogen-bond partner and desolvating environment' is checked on the implementation (search), the model "
                      "states it as the payload being untouched"],
